@@ -210,7 +210,7 @@ class TopoRunner:
     # ------------------------------------------------------------------------------------------- execution
     HANDLE_ARGS = {"Connect": ("s",), "Disconnect": ("s",), "AddInterface": ("s",), "Peer": ("a", "b"), "Unpeer": ("a", "b"),
                    "AddSubInterface": ("i",), "RemoveSubInterface": ("i",)}
-    OBSERVERS = ("Views", "HandleIfs", "ConstraintTables")
+    OBSERVERS = ("Views", "HandleIfs", "ConstraintTables", "Collect", "Tally")
 
     def apply(self, o):
         """handles stay alive only across consecutive calls made through them: any other mutating call drops them
@@ -300,6 +300,49 @@ class TopoRunner:
         if op == "RemoveService":
             t.remove_network_service(name=o["name"])
             return none
+        if op == "AddPortMirror":
+            s = t.add_port_mirror_service(name=conc_name(o["name"]), from_interface_name=o["from"], to_interface=self.elem(o["to"]))
+            self.handles = {s.node_id: s}
+            return none
+        if op in ("Collect", "CollectASM"):
+            from fim.authz.attribute_collector import ResourceAuthZAttributes as RA
+            az = RA()
+            az.collect_resource_attributes(source=t if op == "Collect" else t.graph_model)
+            at = dict(az.attributes)
+
+            def bag(key, conv=tok):
+                out = {}
+                for v in at.get(key, []):
+                    out[conv(v)] = out.get(conv(v), 0) + 1
+                return out
+            req = json.loads(az.transform_to_pdp_request())
+            pdp = {}
+            for cat in req["Request"]["Category"]:
+                for a_ in cat["Attribute"]:
+                    pdp[a_["AttributeId"]] = a_["Value"]
+            return {"k": "attrs", "v": {
+                "rtype": at.get(RA.RESOURCE_TYPE, ["?"])[0] if len(at.get(RA.RESOURCE_TYPE, [])) == 1 else "?",
+                "sites": sorted(at.get(RA.RESOURCE_SITE, [])), "cpu": bag(RA.RESOURCE_CPU), "ram": bag(RA.RESOURCE_RAM),
+                "disk": bag(RA.RESOURCE_DISK), "comps": bag(RA.RESOURCE_COMPONENT, str), "bw": bag(RA.RESOURCE_BW),
+                "facilities": sorted(at.get(RA.RESOURCE_FACILITY_PORT, [])), "v4ext": sorted(at.get(RA.RESOURCE_FABNETV4_EXT, [])),
+                "v6ext": sorted(at.get(RA.RESOURCE_FABNETV6_EXT, [])), "mirror": sorted(at.get(RA.RESOURCE_MIRROR_SITE, [])),
+                "pdp_same": pdp == {k: v for k, v in at.items()},
+                "other_keys": sorted(set(at) - {RA.RESOURCE_TYPE, RA.RESOURCE_SITE, RA.RESOURCE_CPU, RA.RESOURCE_RAM, RA.RESOURCE_DISK,
+                                                RA.RESOURCE_COMPONENT, RA.RESOURCE_BW, RA.RESOURCE_FACILITY_PORT, RA.RESOURCE_FABNETV4_EXT,
+                                                RA.RESOURCE_FABNETV6_EXT, RA.RESOURCE_MIRROR_SITE})}}
+        if op == "Tally":
+            from fim.logging.log_collector import LogCollector
+            lc = LogCollector()
+            lc.collect_resource_attributes(source=t)
+            at = lc.attributes
+            svc = {}
+            for ty, bw in at["services"]:
+                k = "%s:%s" % (ty, tok(bw))
+                svc[k] = svc.get(k, 0) + 1
+            str(lc)
+            return {"k": "tally", "v": {"vm_count": at["vm_count"], "core_count": at["core_count"], "p4_count": at["p4_count"],
+                                        "components": dict(at["components"]), "services": svc, "sites": sorted(at["sites"]),
+                                        "facilities": sorted(at["facilities"]), "n_caps": len(at["nodes"])}}
         if op == "Connect":
             self.need(o["s"])
             self.elem(o["s"], persistent=True).connect_interface(self.elem(o["i"]))
